@@ -14,7 +14,7 @@ META = dict(
 
 def run(ctx):
     ctx.lean_proofs("Props.C25")
-    _nodes.run_nodes(ctx, "C25", "c25")
+    _nodes.run_nodes(ctx, "C25", "c25", quick=330)
 
 
 def search(ctx):
